@@ -59,8 +59,9 @@ H("engine_selftest_ga_copy", "h_lemmas::engine_selftest_ga_copy", "engine self-t
 
 H("lemma_spec_honest_agreement", "h_lemmas::lemma_spec_honest_agreement",
   "R1: the composed RFC 9807 reference steps agree: same randomized password, export key, server public key, MACs accepted, equal session keys",
-  "password 2, credential id 2, context 2 bytes, client identity absent / 2 bytes, all nonces and keys symbolic; blinds 3 and 5",
-  covers=["agreement"], lemma=True, timeout=2400, mem_gb=12, also_depends=["spec_steps.rs"])
+  "password 2, credential id 2, context 2 bytes, client identity absent, all nonces and keys symbolic; blinds 3 and 5",
+  covers=["agreement"], lemma=True, timeout=3600, mem_gb=30, also_depends=["spec_steps.rs"])
+H("lemma_spec_honest_agreement_explicit_idu", "h_lemmas::lemma_spec_honest_agreement_explicit_idu", "R1 with an explicit 2-byte client identity", "as R1", covers=["agreement"], lemma=True, timeout=3600, mem_gb=30, also_depends=["spec_steps.rs"])
 H("lemma_spec_prefix_injective", "h_lemmas::lemma_spec_prefix_injective",
   "R2: the 2-byte-length-prefixed encoding of (context, id_u, id_s) is injective", "all splits of 6 symbolic bytes", covers=["different splits"], lemma=True)
 
@@ -205,7 +206,7 @@ for n, d in (("ctx0_default_ids", "empty context, default identities"), ("ctx2_e
       d + "; request, response, keys, tape symbolic", covers=["reached"], loops=SLICE_LOOPS + KEYLOOPS, timeout=3000, mem_gb=16)
     H("s10w_generate_ke3_" + n, "verif_kani_tripledh::s10w_generate_ke3_" + n,
       "TripleDh::generate_ke3 with derive_3dh_keys replaced by its reference (S11): Ok <=> received MAC == MAC(Km2, Hash(preamble)); session key; client MAC over Hash(preamble||server_mac); else InvalidLoginError",
-      d + "; request, response, KE2 message, client state, keys symbolic", covers=["accept", "reject"], loops=SLICE_LOOPS + KEYLOOPS, timeout=3000, mem_gb=16)
+      d + "; request, response, KE2 message, client state, keys symbolic", covers=["accept", "reject"], loops=SLICE_LOOPS + KEYLOOPS, timeout=5400, mem_gb=50)
 H("s10_expand_label_limits", "verif_kani_tripledh::s10_expand_label_limits", "hkdf_expand_label == RFC Expand-Label; 256-byte context refused",
   "context 8 symbolic bytes / 256 bytes", covers=["ok", "256 refused"], timeout=1800, mem_gb=18)
 
@@ -275,6 +276,12 @@ LEMMAS = ["lemma_hash_eq", "lemma_hmac_eq", "lemma_hkdf_eq", "lemma_hkdf_pad42",
 SELF = ["engine_selftest_ga_copy"]
 CRYPTO_NOTE = "the 'mismatch => reject / different => unrelated' halves of this property are computational (collision resistance, MAC unforgeability) and are not decided: what is decided is that the implementation takes exactly the RFC's decision and feeds exactly the RFC's bytes into every hash, for every input within the bounds"
 
+H("s12_mac_update_iter_long", "h_inputs::s12_mac_update_iter_long", "MacExt::update_iter == HMAC over the concatenation of all parts (incl. a 130-byte and an empty part)",
+  "parts of 2, 130, 0, 3 symbolic bytes", covers=["reached"], loops=SLICE_LOOPS, timeout=1800, mem_gb=12)
+H("s12_digest_chain_iter_long", "h_inputs::s12_digest_chain_iter_long", "UpdateExt::chain_iter == hash of the concatenation of all parts (incl. a 70-byte and an empty part)",
+  "parts of 3, 70, 0, 1 symbolic bytes", covers=["reached"], loops=SLICE_LOOPS, timeout=1800, mem_gb=12)
+S12 = S12 + ["s12_mac_update_iter_long", "s12_digest_chain_iter_long"]
+
 PROPERTIES["C01"] = dict(
     quick=SELF + ["s2_client_reg_start_pw2", "s3_client_login_start_pw2", "s4_server_reg_start_cred2", "c03_server_finish_exact",
                   "w1_client_reg_finish_default_ids", "w2_server_login_start_record", "w3_client_login_finish_default_ids"],
@@ -299,7 +306,7 @@ PROPERTIES["C05"] = dict(
     thorough=["s7_oprf_key_from_seed_long_cred"] + S9W + S10 + W2 + W3,
     assumptions=[CRYPTO_NOTE, "identity/context contents of 0..2 bytes in the step harnesses; every length 0..131073 for the length-prefix functions"])
 PROPERTIES["C06"] = dict(
-    quick=SELF + ["s4_server_reg_start_cred0", "w1_client_reg_finish_default_ids", "w2_server_login_start_record", "s9_open_raw_exact", "s9w_open_default_ids"],
+    quick=SELF + ["s4_server_reg_start_cred0", "w1_client_reg_finish_default_ids", "w2_server_login_start_record", "s9_open_raw_exact", "s9w_open_default_ids", "s12_mac_update_iter_long"],
     thorough=W3 + S9W + ["s8_mask_response", "s8_unmask_response"],
     assumptions=[CRYPTO_NOTE])
 PROPERTIES["C08"] = dict(
